@@ -302,3 +302,30 @@ package transform
 //@   ensures [err-zoom] !(1 <= outputQuadkeyZoom && outputQuadkeyZoom <= 31 && 0 <= outputAltitudekeyZoom && outputAltitudekeyZoom <= 35) ==> r1 != nil && len(r0) == 0
 //@   ensures [err-malformed] (exists k :: 0 <= k && k < len(extendedSpatialIDs) && !isext(extendedSpatialIDs[k])) && (1 <= outputQuadkeyZoom && outputQuadkeyZoom <= 31 && 0 <= outputAltitudekeyZoom && outputAltitudekeyZoom <= 35) ==> r1 != nil
 //@ end
+
+//@ -- C14 / C15 (error behaviour only): clearance fitting and the corridor.  Geodesy and convex-distance code is third party (assumed total).
+//@ extern github.com/trajectoryjp/geodesy_go/coordinates.GeocentricFromGeodetic
+//@ end
+//@ extern (*github.com/trajectoryjp/closest_go.Measure).MeasureNonnegativeDistance
+//@ end
+//@ func FitClearanceAroundExtendedSpatialID
+//@   props C14 C15
+//@   nooverflow
+//@   ensures [err-clearance] clearance < 0.0 ==> r2 != nil
+//@   ensures [err-arity] nf(spatialID) != 5 ==> r2 != nil
+//@   ensures [layers-non-negative] r2 == nil ==> r0 >= 0 && r1 >= 0
+//@   loop 0 invariant hUnits >= 1
+//@   loop 3 invariant vUnits >= 1
+//@ end
+//@ func GetExtendedSpatialIdsWithinRadiusOfLine
+//@   props C14 C15 C16
+//@   nooverflow
+//@   assumecall FitClearanceAroundExtendedSpatialID r0 <= 1024 && r1 <= 1024
+//@   loopframe
+//@   loop 0 invariant len(cartesianPoints) == $i
+//@   ensures [err-nil] startPoint == nil || endPoint == nil ==> r1 != nil && len(r0) == 0
+//@   ensures [err-zoom] startPoint != nil && endPoint != nil && !(0 <= hZoom && hZoom <= 35 && 0 <= vZoom && vZoom <= 35) ==> r1 != nil && len(r0) == 0
+//@   ensures [err-radius] startPoint != nil && endPoint != nil && radius < 0.0 ==> r1 != nil && len(r0) == 0
+//@   ensures [nodup] r1 == nil ==> nodup(r0)
+//@ -- (the clause "contains the line's IDs" needs two chained set-membership instantiations the solvers do not find; not claimed)
+//@ end
